@@ -43,6 +43,32 @@ Definition use_refs (p : parsed) (w : wparams) (kz : Z) : res (list triple) :=
        rbind (reftype_by_name (lit "HasTypeDefinition") (p_nodes p)) (fun htd =>
        let in_ns := map nr_nodeid (filter (fun r => Z.eqb (nid_ns (nr_nodeid r)) kz) (p_nodes p)) in
        Ok (filter (fun t => mem_nid (snd (fst t)) in_ns || nid_eqb (snd t) hmr || nid_eqb (snd t) htd) (p_refs p)))).
+(* ---- the parts of write_nodeset / create_nodeset2_file, named so that theorems can speak about them ---- *)
+(* the written namespace becomes index 1 *)
+Definition w_newl (ns : list str) (k : nat) : list str :=
+  nth 0 ns [] :: nth k ns [] :: map snd (filter (fun ix => negb (Nat.eqb (fst ix) 0) && negb (Nat.eqb (fst ix) k)) (combine (seq 0 (length ns)) ns)).
+Definition w_remap (ns : list str) (k : nat) (i : Z) : Z :=
+  match str_index (nth (Z.to_nat i) ns []) (w_newl ns k) with Some j => Z.of_nat j | None => i end.
+Definition wrow := (node_row * nodeid * option Z)%type.          (* a node row, its re-indexed NodeId and browse-name namespace *)
+Definition w_nodes1 (p : parsed) (k : nat) : list wrow :=
+  map (fun r => (r, with_nid_ns (nr_nodeid r) (w_remap (p_namespaces p) k (nid_ns (nr_nodeid r))), omap (w_remap (p_namespaces p) k) (nr_bns r))) (p_nodes p).
+Definition w_mine (p : parsed) (k : nat) : list wrow := filter (fun x => Z.eqb (nid_ns (snd (fst x))) 1) (w_nodes1 p k).
+(* find_namespaces_in_use *)
+Definition w_used (p : parsed) (k : nat) (refs : list triple) : list nodeid :=
+  let mine := w_mine p k in
+  let mine_ids := map (fun x => nr_nodeid (fst (fst x))) mine in
+  mine_ids
+  ++ flat_map (fun t => if mem_nid (fst (fst t)) mine_ids then [snd (fst t); snd t] else []) refs
+  ++ flat_map (fun t => if mem_nid (snd (fst t)) mine_ids then [fst (fst t); snd t] else []) refs
+  ++ flat_map (fun x => attr_targets (fst (fst x))) mine.
+Definition w_in_use (p : parsed) (k : nat) (refs : list triple) : list Z :=
+  zsort_dedup (map (fun x => nid_ns (snd (fst x))) (filter (fun x => mem_nid (nr_nodeid (fst (fst x))) (w_used p k refs)) (w_nodes1 p k))
+               ++ flat_map (fun x => match snd x with Some b => [b] | None => [] end) (w_mine p k)).
+Definition w_compact (in_use : list Z) (i : Z) : option Z := omap Z.of_nat (zindex i in_use).
+(* the rows that become node elements: those whose compacted namespace index is 1 *)
+Definition w_written (p : parsed) (k : nat) (in_use : list Z) : list wrow :=
+  filter (fun x => match w_compact in_use (nid_ns (snd (fst x))) with Some c => Z.eqb c 1 | None => false end) (w_nodes1 p k).
+
 Definition write_doc (p : parsed) (w : wparams) : res doc :=
   match str_index (wp_uri w) (p_namespaces p) with
   | None => Err EValue
@@ -50,23 +76,12 @@ Definition write_doc (p : parsed) (w : wparams) : res doc :=
       let kz := Z.of_nat k in
       (* remove_instance_level_outgoing_references *)
       rbind (use_refs p w kz) (fun refs =>
-      (* the written namespace becomes index 1 *)
-      let ns := p_namespaces p in
-      let newl := nth 0 ns [] :: nth k ns [] :: map snd (filter (fun ix => negb (Nat.eqb (fst ix) 0) && negb (Nat.eqb (fst ix) k)) (combine (seq 0 (length ns)) ns)) in
-      let remap (i : Z) : Z := match str_index (nth (Z.to_nat i) ns []) newl with Some j => Z.of_nat j | None => i end in
-      let rn (n : nodeid) := with_nid_ns n (remap (nid_ns n)) in
-      let nodes1 := map (fun r => (r, rn (nr_nodeid r), omap remap (nr_bns r))) (p_nodes p) in
-      let mine := filter (fun x => Z.eqb (nid_ns (snd (fst x))) 1) nodes1 in
-      let mine_ids := map (fun x => nr_nodeid (fst (fst x))) mine in
-      (* find_namespaces_in_use *)
-      let used := mine_ids
-                  ++ flat_map (fun t => if mem_nid (fst (fst t)) mine_ids then [snd (fst t); snd t] else []) refs
-                  ++ flat_map (fun t => if mem_nid (snd (fst t)) mine_ids then [fst (fst t); snd t] else []) refs
-                  ++ flat_map (fun x => attr_targets (fst (fst x))) mine in
-      let in_use := zsort_dedup (map (fun x => nid_ns (snd (fst x))) (filter (fun x => mem_nid (nr_nodeid (fst (fst x))) used) nodes1)
-                                 ++ flat_map (fun x => match snd x with Some b => [b] | None => [] end) mine) in
+      let newl := w_newl (p_namespaces p) k in
+      let nodes1 := w_nodes1 p k in
+      let mine := w_mine p k in
+      let in_use := w_in_use p k refs in
       let newl2 := map (fun i => nth (Z.to_nat i) newl []) in_use in
-      let compact (i : Z) : option Z := omap Z.of_nat (zindex i in_use) in
+      let compact := w_compact in_use in
       match newl2 with
       | _ :: u1 :: _ =>
           (* lookup: original NodeId of a node in use -> its NodeId in the written document *)
@@ -75,7 +90,7 @@ Definition write_doc (p : parsed) (w : wparams) : res doc :=
             | Some x => omap (with_nid_ns n) (compact (nid_ns (snd (fst x))))
             | None => None end in
           let text_of (n : nodeid) : str := match lookup n with Some m => print_nodeid m | None => lit "nan" end in
-          let written := filter (fun x => match compact (nid_ns (snd (fst x))) with Some c => Z.eqb c 1 | None => false end) nodes1 in
+          let written := w_written p k in_use in
           let written_ids := map (fun x => nr_nodeid (fst (fst x))) written in
           let node_elem_of (x : node_row * nodeid * option Z) : node_elem :=
             let r := fst (fst x) in
@@ -127,3 +142,16 @@ Definition write_doc (p : parsed) (w : wparams) : res doc :=
       | _ => Err EIndex
       end)
   end.
+
+(* the regularity conditions of theorem C06_node_elements, as a decision procedure (evaluated by the runner on every generated case) *)
+Fixpoint nodup_str (l : list str) : bool := match l with [] => true | x :: r => negb (existsb (str_eqb x) r) && nodup_str r end.
+Definition regular_b (p : parsed) (k : nat) (refs : list triple) : bool :=
+  nodup_str (p_namespaces p) && Nat.ltb 0 k && Nat.ltb k (length (p_namespaces p))
+  && forallb (fun r => (0 <=? nid_ns (nr_nodeid r))%Z && (nid_ns (nr_nodeid r) <? Z.of_nat (length (p_namespaces p)))%Z
+                       && match nr_bns r with Some b => (0 <=? b)%Z | None => true end) (p_nodes p)
+  && existsb (Z.eqb 0) (w_in_use p k refs)
+  && existsb (fun r => Z.eqb (nid_ns (nr_nodeid r)) (Z.of_nat k)) (p_nodes p).
+Definition write_regular (p : parsed) (w : wparams) : bool :=
+  match str_index (wp_uri w) (p_namespaces p) with
+  | Some k => match use_refs p w (Z.of_nat k) with Ok refs => regular_b p k refs | Err _ => false end
+  | None => false end.
